@@ -74,6 +74,82 @@ pub fn canon(store: &AnnotationStore, values_as_text: bool) -> Vec<String> {
     out
 }
 
+// ---------------------------------------------------------------------------------------------
+// the rows of the CSV annotations table vs. the Lean model (StamModel/CsvRow.lean): `cr row` / `cr data` lines
+// ---------------------------------------------------------------------------------------------
+
+fn cr_cursor(c: &Cursor) -> String { match c { Cursor::BeginAligned(n) => format!("b{}", n), Cursor::EndAligned(z) => format!("e{}", z) } }
+
+/// a simple selector as the model's `Sub`
+fn cr_sub(store: &AnnotationStore, sel: &Selector, out: &mut Vec<String>) -> Option<()> {
+    let rid = |h: &TextResourceHandle| store.resource(*h).and_then(|r| r.id().map(|x| x.to_string()));
+    let sid = |h: &AnnotationDataSetHandle| store.dataset(*h).map(|d| d.id().map(|x| x.to_string()).unwrap_or_else(|| format!("!S{}", h.as_usize())));
+    match sel {
+        Selector::TextSelector(r, ..) => { let o = sel.offset(store)?; out.extend(["t".to_string(), hex(&rid(r)?), cr_cursor(&o.begin), cr_cursor(&o.end)]); }
+        Selector::AnnotationSelector(a, t) => {
+            let aid = store.annotation(*a).map(|x| x.id().map(|s| s.to_string()).unwrap_or_else(|| format!("!A{}", a.as_usize())))?;
+            match (t, sel.offset(store)) { (Some(_), Some(o)) => out.extend(["a".to_string(), hex(&aid), cr_cursor(&o.begin), cr_cursor(&o.end)]), _ => out.extend(["a".to_string(), hex(&aid), "-".to_string()]) }
+        }
+        Selector::ResourceSelector(r) => out.extend(["r".to_string(), hex(&rid(r)?)]),
+        Selector::DataSetSelector(d) => out.extend(["s".to_string(), hex(&sid(d)?)]),
+        Selector::DataKeySelector(d, k) => { let key = store.dataset(*d)?.key(*k)?.id()?.to_string(); out.extend(["k".to_string(), hex(&sid(d)?), hex(&key)]); }
+        Selector::AnnotationDataSelector(d, x) => { let ds = store.dataset(*d)?; let data = ds.annotationdata(*x)?; let id = data.id().map(|s| s.to_string()).unwrap_or_else(|| format!("!D{}", x.as_usize())); out.extend(["d".to_string(), hex(&sid(d)?), hex(&id)]); }
+        _ => return None,
+    }
+    Some(())
+}
+
+fn cr_target(store: &AnnotationStore, sel: &Selector) -> Option<String> {
+    let mut out: Vec<String> = vec![];
+    match sel {
+        Selector::CompositeSelector(v) | Selector::MultiSelector(v) | Selector::DirectionalSelector(v) => {
+            let mut subs: Vec<String> = vec![];
+            let mut n = 0;
+            for s in v {
+                match s {
+                    Selector::RangedTextSelector { .. } | Selector::RangedAnnotationSelector { .. } => for x in s.iter(store, false) { cr_sub(store, &x, &mut subs)?; n += 1; },
+                    _ => { cr_sub(store, s, &mut subs)?; n += 1; }
+                }
+            }
+            out.push(match sel { Selector::CompositeSelector(_) => "CC", Selector::MultiSelector(_) => "CM", _ => "CX" }.to_string());
+            out.push(n.to_string());
+            out.extend(subs);
+        }
+        _ => { out.push("S".into()); cr_sub(store, sel, &mut out)?; }
+    }
+    Some(out.join(" "))
+}
+
+/// every row of the written annotations table: its eight target cells and its two data cells against the model's
+fn csv_rows_vs_model(rep: &mut Report, store: &AnnotationStore, sub: &std::path::Path, ctx: &Vec<String>) {
+    let file = match std::fs::read_dir(sub).ok().and_then(|rd| rd.flatten().map(|e| e.path()).find(|p| p.file_name().map(|n| n.to_string_lossy().contains(".annotations.")).unwrap_or(false))) { Some(f) => f, None => return };
+    let mut rdr = match csv::ReaderBuilder::new().has_headers(true).flexible(true).from_path(&file) { Ok(r) => r, Err(_) => return };
+    let headers: Vec<String> = rdr.headers().map(|h| h.iter().map(|x| x.to_string()).collect()).unwrap_or_default();
+    let col = |name: &str| headers.iter().position(|h| h == name);
+    let cols: Vec<Option<usize>> = ["SelectorType", "TargetResource", "TargetAnnotation", "TargetDataSet", "BeginOffset", "EndOffset", "TargetKey", "TargetData", "AnnotationData", "AnnotationDataSet"].iter().map(|n| col(n)).collect();
+    if store.annotations().next().is_none() { return; } // (an empty table has no header line)
+    if cols.iter().any(|c| c.is_none()) { rep.fail("oracle", "C15/annotations-table/columns-missing", ctx.clone(), "the eleven columns", &format!("{:?}", headers)); return; }
+    let rows: Vec<csv::StringRecord> = rdr.records().flatten().collect();
+    let anns: Vec<_> = store.annotations().collect();
+    if rows.len() != anns.len() { rep.fail("oracle", "C15/annotations-table/row-count", ctx.clone(), &format!("{} rows", anns.len()), &format!("{} rows", rows.len())); return; }
+    for (a, row) in anns.iter().zip(rows.iter()) {
+        let cell = |k: usize| row.get(cols[k].unwrap()).unwrap_or("").to_string();
+        if let Some(t) = cr_target(store, a.as_ref().target()) {
+            let line = format!("cr row {}", t);
+            let got: Vec<String> = (0..8).map(|k| hex(&cell(k))).collect();
+            rep.count("csv:row-vs-model");
+            rep.model_case_ctx(ctx.clone(), vec![line], vec![got.join(" ")], "csv-row");
+        }
+        // the data cells: (dataset, data identifier) pairs in the annotation's order
+        let items: Vec<(String, String)> = a.data().map(|d| (d.set().id().map(|s| s.to_string()).unwrap_or_else(|| format!("!S{}", d.set().handle().as_usize())), d.id().map(|s| s.to_string()).unwrap_or_else(|| format!("!D{}", d.handle().as_usize())))).collect();
+        if items.iter().all(|(s, d)| !s.is_empty() && !d.is_empty() && !s.contains(';') && !d.contains(';')) {
+            let line = format!("cr data {} {}", items.len(), items.iter().map(|(s, d)| format!("{} {}", hex(s), hex(d))).collect::<Vec<_>>().join(" "));
+            rep.count("csv:data-vs-model");
+            rep.model_case_ctx(ctx.clone(), vec![line], vec![format!("{} {} same", hex(&cell(8)), hex(&cell(9)))], "csv-data");
+        }
+    }
+}
+
 /// replace identifiers of the form !A<n> / !D<n> (temporary ids) by the id-less marker
 fn strip_temp_ids(line: &str) -> String {
     let mut out = String::new();
@@ -397,6 +473,7 @@ fn check_script(rep: &mut Report, script: &[String], property: Option<&str>, dir
                 if !matches!(w, Ok(Ok(()))) {
                     rep.fail(if w.is_err() { "panic" } else { "oracle" }, "C15/write-fails", ctx.clone(), "written", &format!("{:?}", w.map(|r| r.map_err(|e| format!("{}", e)))));
                 } else {
+                    csv_rows_vs_model(rep, store, &sub, &ctx);
                     match guarded(std::panic::AssertUnwindSafe(|| AnnotationStore::from_file(&p, Config::default()))) {
                         Ok(Ok(st2)) => {
                             let after = canon(&st2, true);
